@@ -98,7 +98,7 @@ static void body(bsx::Ctx& c) {
 		std::string prefix;
 		for (int i = 0; i + 1 < len; ++i) prefix.push_back(static_cast<char>(kMpAlpha[c.choose(NA, "sym")]));
 		int target = c.choose(12, "target");
-		// words of the maximal thorough length go into 3 of the 12 targets (int32, vector<int>, class); the others are covered up to length 3
+		// words of the maximal thorough length go into 3 of the 12 targets (int32, vector<int>, class; the fork-per-word family 'map header then ill-formed' is covered up to length 3): measured alone on 16 cores this tier takes about 6 minutes, with 8 targets more than an hour; the others are covered up to length 3
 		if (thorough && len == L && !(target == 0 || target == 4 || target == 8)) { c.outcome("n/a:target_not_used_for_longest_words"); return; }
 		std::string sigbase = std::string("C02/msgpack/words/target=") + kMpTargets[target];
 		for (int last = 0; last < NA; ++last) {
